@@ -945,6 +945,19 @@ func ruleZeroReset(c *Ctx) {
 						vkey = p.exprKey(as.Lhs[0])
 					}
 				}
+				// scalar form: v = v / 10^k, v /= 10^k (reduce64)
+				if as, ok := s.(*ast.AssignStmt); ok && len(as.Lhs) == 1 && len(as.Rhs) == 1 {
+					lk := p.exprKey(as.Lhs[0])
+					if as.Tok == token.QUO_ASSIGN && lk != "" {
+						if z, ok := p.constInt64(as.Rhs[0]); ok && z >= 10 && z%10 == 0 {
+							vkey = lk
+						}
+					} else if be, ok := ast.Unparen(as.Rhs[0]).(*ast.BinaryExpr); ok && as.Tok == token.ASSIGN && be.Op == token.QUO && lk != "" && p.exprKey(be.X) == lk {
+						if z, ok := p.constInt64(be.Y); ok && z >= 10 && z%10 == 0 {
+							vkey = lk
+						}
+					}
+				}
 				if a, ok := p.asAdjustment(s); ok && a.key == ekey {
 					adjusts = true
 				}
